@@ -423,7 +423,8 @@ func (w *vc04World) op(tok string) string {
 			if e.code == 0 {
 				found := false
 				for s, u := range w.uid {
-					if s.PPPoESessionID == e.sid && s.MAC.String() == e.dst && s.OuterVLAN == e.sv && s.InnerVLAN == e.cv {
+					live := c.sidIndex[s.PPPoESessionID] == s || c.sessions[w.key(s.MAC, s.OuterVLAN, s.InnerVLAN)] == s
+					if live && s.PPPoESessionID == e.sid && s.MAC.String() == e.dst && s.OuterVLAN == e.sv && s.InnerVLAN == e.cv {
 						hit[u] = true
 						found = true
 					}
